@@ -20,6 +20,13 @@ func init() { Registry["C14"] = c14 }
 // field name, to a value.
 func bindFieldLoads(f *ssa.Function, base ssa.Value, vals map[string]consteval.Val) consteval.Env {
 	env := consteval.Env{}
+	bindFieldLoadsInto(env, f, base, vals, 0)
+	return env
+}
+
+// bindFieldLoadsInto also binds the loads in helpers of the package that receive
+// the same object (methods extracted from f, e.g. par.signatureLength()).
+func bindFieldLoadsInto(env consteval.Env, f *ssa.Function, base ssa.Value, vals map[string]consteval.Val, depth int) {
 	allInstrs(f, func(ins ssa.Instruction) {
 		v, ok := ins.(ssa.Value)
 		if !ok {
@@ -30,8 +37,16 @@ func bindFieldLoads(f *ssa.Function, base ssa.Value, vals map[string]consteval.V
 				env[v] = val
 			}
 		}
+		if call, isCall := ins.(*ssa.Call); isCall && depth < 2 {
+			if g := call.Call.StaticCallee(); g != nil && g.Blocks != nil && g.Pkg == f.Pkg && g != f {
+				for i, a := range call.Call.Args {
+					if guard.Strip(a) == base && i < len(g.Params) {
+						bindFieldLoadsInto(env, g, g.Params[i], vals, depth+1)
+					}
+				}
+			}
+		}
 	})
-	return env
 }
 
 func c14(c *Ctx) {
